@@ -41,6 +41,7 @@ import (
 	"sync/atomic"
 	"syscall"
 	"time"
+	"unicode/utf8"
 
 	"google.golang.org/grpc"
 
@@ -105,14 +106,25 @@ type volInfo struct {
 var (
 	namePool = []string{"", "a.txt", "x.png", "data.bin", "report.pdf", "we \"quoted\" name.txt", "näme-üñî.txt", "back\\slash.dat",
 		"dir/sub/inner.html", "noext", ".txt", ".svg", ".png", "archive.tar.gz", "script.js", "semi;colon.css", "pic.JPG", "percent%20name.json",
-		strings.Repeat("L", 251) + ".txt", strings.Repeat("T", 300) + ".txt", "doc.xml", "page.htm"}
+		strings.Repeat("L", 251) + ".txt", strings.Repeat("T", 300) + ".txt", "doc.xml", "page.htm",
+		// bytes a hand-written or library escaper may treat differently from the parser on the other side
+		"tab\there.bin", "nb\u00a0sp.txt", "zero\u200bwidth.txt", "caf\xe9-latin1.txt", "\xff\xfe-invalid.dat", "bell\x07.bin",
+		"100%.txt", "a;b=c.txt", "quote\"and\\back.txt", "sp ace  two.txt", "trailing.dot.", "中文名.txt", "emoji-😀.png",
+		strings.Repeat("é", 127) + "x"}
 	mimePool = []string{"", "", "application/octet-stream", "text/plain", "text/plain; charset=utf-8", "image/png", "image/jpeg", "text/html",
 		"application/json", "application/x-verif-custom", "application/xml", "text/css", "application/pdf", "application/javascript",
-		"application/" + strings.Repeat("m", 260)}
+		"application/" + strings.Repeat("m", 260),
+		"text/x-tab;\tcharset=utf-8", "application/x-nb\u00a0sp", "application/x-zw\u200bsp", "application/x-latin1-\xe9", "text/x-quoted; title=\"a\\b\"",
+		"application/x-100%; q=0.5", "application/" + strings.Repeat("n", 240)}
 	contentPool = []string{"random", "random", "ascii", "ascii", "html", "png", "gzipmagic", "json", "pdf", "empty", "one", "bigtext", "bigbinrep", "bigrandom", "xml", "utf8text"}
 	ttlPool     = []string{"", "", "", "3h", "7d", "1M", "2y", "300m", "90m", "5x"}
 	extPool     = []string{"", "", "", ".txt", ".jpg", ".bin"}
 )
+
+// header values with a TAB inside, non-breaking / zero-width space, Latin-1 (invalid UTF-8)
+// bytes, quotes, backslashes, percent signs, semicolons, and a long one
+var hostilePairValues = []string{"tab\tinside", "nb\u00a0sp", "zero\u200bwidth", "caf\xe9 latin1 \xff", "q\"uote and back\\slash", "100% sure; a=b, c",
+	"中文 😀", strings.Repeat("v", 255)}
 
 func makeContent(class string, n int, pat int64) []byte {
 	rng := rand.New(rand.NewSource(pat))
@@ -190,7 +202,9 @@ func genSpec(rng *rand.Rand) *upSpec {
 	if rng.Intn(7) == 0 {
 		s.Gzip = true
 	}
-	switch rng.Intn(5) {
+	switch rng.Intn(6) {
+	case 2:
+		s.Pairs = map[string]string{"Seaweed-Hostile": hostilePairValues[rng.Intn(len(hostilePairValues))]}
 	case 0:
 		s.Pairs = map[string]string{"Seaweed-Foo": "bar"}
 	case 1:
@@ -225,7 +239,7 @@ func mimeClass(s *upSpec) string {
 		case len(s.Mime) >= 256:
 			return "primary-stores-empty-mime"
 		}
-		return "explicit-mime"
+		return explicitClass(s.Mime)
 	}
 	ext := ""
 	if i := strings.LastIndex(filepath.Base(s.Name), "."); i > 0 {
@@ -236,6 +250,17 @@ func mimeClass(s *upSpec) string {
 		return "primary-stores-empty-mime"
 	case ext != "" && mime.TypeByExtension(ext) == s.Mime:
 		return "primary-stores-empty-mime"
+	}
+	return explicitClass(s.Mime)
+}
+
+// explicitClass separates explicit mimes made of plain printable ASCII from those with
+// TAB / non-ASCII / invalid UTF-8 bytes, quotes, backslashes or percent signs.
+func explicitClass(m string) string {
+	for i := 0; i < len(m); i++ {
+		if c := m[i]; c < 0x20 || c >= 0x7f || c == '"' || c == '\\' || c == '%' {
+			return "explicit-mime-with-hostile-bytes"
+		}
 	}
 	return "explicit-mime"
 }
@@ -249,6 +274,10 @@ func nameClass(s *upSpec) string {
 		return "empty-name"
 	case len(filepath.Base(s.Name)) >= 256:
 		return "name-too-long"
+	case !utf8.ValidString(s.Name):
+		return "name-invalid-utf8"
+	case strings.IndexFunc(s.Name, func(r rune) bool { return r < 0x20 || r == 0x7f || r == 0xa0 || r == 0x200b }) >= 0:
+		return "name-with-control-or-invisible-rune"
 	case strings.ContainsAny(s.Name, "\"\\"):
 		return "name-with-quote-or-backslash"
 	case strings.Contains(s.Name, "/"):
@@ -1414,7 +1443,42 @@ func main() {
 		finish(0)
 	}
 
-	nUp, nDel, nFault := r.Pick(150, 1500), r.Pick(50, 500), r.Pick(10, 100)
+	// ---- deterministic sweep: every name, every mime and every hostile pair value of the pools
+	// is uploaded once (binary content, so that no compression decision interferes), on
+	// alternating volumes and primaries, and judged like any other acknowledged upload
+	{
+		var sweep []*upSpec
+		var refused []string
+		for _, n := range namePool {
+			sweep = append(sweep, &upSpec{Method: "POST", Name: n, Mime: "application/x-verif-custom", Content: "random"})
+		}
+		for _, m := range mimePool {
+			sweep = append(sweep, &upSpec{Method: "POST", Name: "m.bin", Mime: m, Content: "random"})
+			if explicitClass(m) != "explicit-mime" {
+				sweep = append(sweep, &upSpec{Method: "PUT", Mime: m, Content: "random"})
+			}
+		}
+		for _, v := range hostilePairValues {
+			sweep = append(sweep, &upSpec{Method: "PUT", Mime: "application/x-verif-custom", Content: "random", Pairs: map[string]string{"Seaweed-Hostile": v, "Seaweed-Plain": "p"}})
+		}
+		for i, sp := range sweep {
+			sp.Len, sp.Pat = 40+i, int64(7000+i)
+			v := w.volList[i%len(w.volList)]
+			f := w.newFidOn(v, rng)
+			r.Case(map[string]interface{}{"sweep": i, "spec": sp})
+			if ok2xx(w.upload(f, v.Servers[rng.Intn(len(v.Servers))], sp)) {
+				r.Count("sweep_uploads_2xx", 1)
+			} else {
+				r.Count("sweep_uploads_non2xx", 1)
+				refused = append(refused, fmt.Sprintf("%s name=%q mime=%q pairs=%q", sp.Method, sp.Name, sp.Mime, sp.Pairs))
+			}
+		}
+		if len(refused) > 0 {
+			r.Note("sweep_inputs_refused_not_judged", refused)
+		}
+	}
+
+	nUp, nDel, nFault := r.Pick(120, 1500), r.Pick(50, 500), r.Pick(10, 100)
 	total := nUp + nDel
 	faultEvery := total / nFault
 	ups, dels, faults := 0, 0, 0
